@@ -1,84 +1,111 @@
 (* Proofs/C07GenSq.v — the GENERATED whole method sptensor.squeeze (Gen/GenSptensor4b.v, regenerated from pyttb/sptensor.py on every
-   run; bridged by the translator builder to the hand reference H_squeeze, Proofs/W4Squeeze.v) returns, on every coordinate list
-   with in-range subscripts and one value per row, exactly what the code-path model squeeze_sp_impl of Model/C07Impl.v returns
-   (a tensor, the bare entry, or the refusal of .item() on more than one stored value). *)
+   run) returns, on every coordinate list with in-range subscripts and one value per row, exactly what sptensor.squeeze's return
+   statements return (a tensor, the bare entry, or the refusal of .item() on more than one stored value) with the singleton test the
+   regenerated text contains: `shape > 1` (squeeze_sp_impl of Model/C07Impl.v; /repo up to 6e4bb42, finding N-C07-7) or `shape != 1`
+   (squeeze_sp_impl_ne of Model/C07Gen4.v; the repair fixes/C07-N-C07-7.diff).  Wave 6: everything is proved once for a parametric
+   test (Section Keep), the bridge to the regenerated text (sq_text) is proved here with one script that checks either text, so this
+   file compiles unchanged on both trees and does not depend on the translator builder's Proofs/W4Squeeze.v (which states the same
+   bridge as squeeze_bridge_text over its own reference H_squeeze_p). *)
 From Coq Require Import List ZArith Arith Lia Bool.
-From PV Require Import Base.Index Base.Perm Np.NpZ Np.NpZ2 Np.NpZ3 Np.NpZ3c Np.NpZ3d Np.NpZ3e Np.NpZ4 Np.NpZ4b Np.NpZ4d Np.NpZ4e
-  Proofs.NpZProofs Gen.GenSptensor4b Model.Sparse Model.C07Ops Model.C07Impl Model.W4Squeeze Proofs.W4Squeeze
-  Proofs.W4ReshapeModel Proofs.C07Proofs Model.W4Ktensor Model.W4Sptensor Model.C07Gen4.
+From PV Require Import Base.Index Base.Perm Np.NpZ Np.NpZ2 Np.NpZ3 Np.NpZ3c Np.NpZ3d Np.NpZ3e Np.NpZ4 Np.NpZ4b Np.NpZ4d Np.NpZ4e Np.NpZ4f
+  Proofs.NpZProofs Gen.GenSptensor4b Model.Sparse Model.C07Ops Model.C07Impl Proofs.W4Loops
+  Proofs.W4ReshapeModel Proofs.C07Proofs Model.W4Ktensor Model.W4Sptensor Model.C07W5 Proofs.C07W5 Model.C07Gen4.
 Import ListNotations.
 
-(* positions of the modes of size > 1, counted from k *)
+(* ---------------- the body of sptensor.squeeze with the entry-wise singleton test as a parameter (kz on the sizes as the generated
+   code sees them, kn on the sizes of the models); H_squeeze of the translator builder's Model/W4Squeeze.v is the instance `fun d => d >? 1` *)
+Definition Hsq (kz : Z -> bool) (self : sptz) : res sq_result :=
+  let sh := spt_shape self in
+  let idx := np_where1 (map kz sh) in
+  if forallb kz sh then
+    (if spt_make_ok (spt_subs self) (spt_vals self) sh then Ok (NpZ4d.SqTensor self) else Err)
+  else if (zlen idx =? 0)%Z then
+    match spt_vals self with
+    | [] => Ok (NpZ4d.SqScalar 0%Z)
+    | [v] => Ok (NpZ4d.SqScalar v)
+    | _ => Err
+    end
+  else
+    let siz := filter kz sh in
+    if (zlen (spt_vals self) =? 0)%Z then (if spt_make_ok [] [] siz then Ok (NpZ4d.SqTensor (mkspt [] [] siz)) else Err)
+    else if np_cols_ok (spt_subs self) idx && spt_make_ok (np_cols (spt_subs self) idx) (spt_vals self) siz
+         then Ok (NpZ4d.SqTensor (mkspt (np_cols (spt_subs self) idx) (spt_vals self) siz)) else Err.
+
+Section Keep.
+Variables (kn : nat -> bool) (kz : Z -> bool).
+Hypothesis Hk : forall d : nat, kz (Z.of_nat d) = kn d.
+
+(* positions of the kept modes, counted from k *)
 Fixpoint keep_from (k : nat) (s : shape) : list nat :=
   match s with
   | [] => []
-  | d :: s' => if 1 <? d then k :: keep_from (S k) s' else keep_from (S k) s'
+  | d :: s' => if kn d then k :: keep_from (S k) s' else keep_from (S k) s'
   end.
 
 Lemma where_keep (k : nat) (s : shape) :
-  where_from (Z.of_nat k) (map (fun x => (x >? 1)%Z) (zs s)) = zs (keep_from k s).
+  where_from (Z.of_nat k) (map kz (zs s)) = zs (keep_from k s).
 Proof.
   revert k. induction s as [|d s IH]; intros k; [reflexivity|]. unfold zs in *. cbn [map where_from keep_from].
-  replace (Z.of_nat k + 1)%Z with (Z.of_nat (S k)) by lia. rewrite IH.
-  replace (Z.of_nat d >? 1)%Z with (1 <? d).
-  - now destruct (1 <? d).
-  - destruct (Nat.ltb_spec 1 d); symmetry; [apply Z.gtb_lt; lia|]. destruct (Z.gtb_spec (Z.of_nat d) 1); [lia|reflexivity].
+  replace (Z.of_nat k + 1)%Z with (Z.of_nat (S k)) by lia. rewrite IH, Hk. now destruct (kn d).
 Qed.
 
-Lemma keep_from_length k s : length (keep_from k s) = length (sqz s s).
-Proof. revert k. induction s as [|d s IH]; intros k; [reflexivity|]. cbn [keep_from sqz]. destruct (1 <? d); cbn [length]; now rewrite IH. Qed.
+Lemma keep_from_length k s : length (keep_from k s) = length (sqk kn s s).
+Proof. revert k. induction s as [|d s IH]; intros k; [reflexivity|]. cbn [keep_from sqk]. destruct (kn d); cbn [length]; now rewrite IH. Qed.
 
 Lemma keep_from_lt k s x : In x (keep_from k s) -> x < k + length s.
 Proof.
   revert k. induction s as [|d s IH]; intros k; [intros []|]. cbn [keep_from length].
-  destruct (1 <? d); [intros [<-|H]; [lia|]|intros H]; apply IH in H; lia.
+  destruct (kn d); [intros [<-|H]; [lia|]|intros H]; apply IH in H; lia.
 Qed.
 
 Lemma pick_keep_from (pre j : list nat) (s : shape) : length j = length s ->
-  pick 0 (keep_from (length pre) s) (pre ++ j) = sqz s j.
+  pick 0 (keep_from (length pre) s) (pre ++ j) = sqk kn s j.
 Proof.
   revert pre j. induction s as [|d s IH]; intros pre [|x j] HL; try discriminate; [reflexivity|].
-  cbn [keep_from sqz]. injection HL as HL.
-  assert (E : pick 0 (keep_from (S (length pre)) s) (pre ++ x :: j) = sqz s j).
+  cbn [keep_from sqk]. injection HL as HL.
+  assert (E : pick 0 (keep_from (S (length pre)) s) (pre ++ x :: j) = sqk kn s j).
   { replace (pre ++ x :: j) with ((pre ++ [x]) ++ j) by (rewrite <- app_assoc; reflexivity).
     replace (S (length pre)) with (length (pre ++ [x])) by (rewrite app_length; cbn; lia). now apply IH. }
-  destruct (1 <? d); [|exact E]. unfold pick in *. cbn [map]. rewrite E. f_equal. apply nth_middle.
+  destruct (kn d); [|exact E]. unfold pick in *. cbn [map]. rewrite E. f_equal. apply nth_middle.
 Qed.
 
-Lemma filter_gt1_zs s : filter (fun d => (d >? 1)%Z) (zs s) = zs (sqz s s).
+Lemma filter_k_zs s : filter kz (zs s) = zs (sqk kn s s).
 Proof.
-  induction s as [|d s IH]; [reflexivity|]. unfold zs in *. cbn [map filter sqz].
-  replace (Z.of_nat d >? 1)%Z with (1 <? d).
-  - destruct (1 <? d); cbn [map]; now rewrite IH.
-  - destruct (Nat.ltb_spec 1 d); symmetry; [apply Z.gtb_lt; lia|]. destruct (Z.gtb_spec (Z.of_nat d) 1); [lia|reflexivity].
+  induction s as [|d s IH]; [reflexivity|]. unfold zs in *. cbn [map filter sqk]. rewrite Hk.
+  destruct (kn d); cbn [map]; now rewrite IH.
 Qed.
 
-Lemma forallb_gt1_zs s : forallb (fun d => (d >? 1)%Z) (zs s) = forallb (Nat.ltb 1) s.
+Lemma forallb_k_zs s : forallb kz (zs s) = forallb kn s.
+Proof. induction s as [|d s IH]; [reflexivity|]. unfold zs in *. cbn [map forallb]. now rewrite IH, Hk. Qed.
+
+(* dropping modes keeps a subscript inside the shape *)
+Lemma sqk_inb s j : inb s j = true -> inb (sqk kn s s) (sqk kn s j) = true.
 Proof.
-  induction s as [|d s IH]; [reflexivity|]. unfold zs in *. cbn [map forallb]. rewrite IH. f_equal.
-  destruct (Nat.ltb_spec 1 d); [apply Z.gtb_lt; lia|]. destruct (Z.gtb_spec (Z.of_nat d) 1); [lia|reflexivity].
+  revert j; induction s as [|d s IH]; intros [|x j] H; cbn [inb] in H; try discriminate; [reflexivity|].
+  apply andb_true_iff in H as [Hx Hj]. cbn [sqk]. destruct (kn d); [|now apply IH].
+  cbn [inb]. rewrite Hx. now apply IH.
 Qed.
 
-Theorem gen_sp_squeeze_model (S : sparse Z) : sshape S <> [] ->
+Theorem gen_sp_squeeze_k (S : sparse Z) : sshape S <> [] ->
   Forall (fun j => inb (sshape S) j = true) (ssubs S) -> length (svals S) = length (ssubs S) ->
-  sptensor_squeeze (of_Sp S) =
-    match squeeze_sp_impl 0%Z S with
+  Hsq kz (of_Sp S) =
+    match squeeze_sp_impl_k kn 0%Z S with
     | Some (C07Ops.SqT R) => Ok (NpZ4d.SqTensor (of_Sp R))
     | Some (C07Ops.SqScalar v) => Ok (NpZ4d.SqScalar v)
     | None => Err
     end.
 Proof.
-  intros Hs Hin Hlen. rewrite squeeze_bridge. unfold H_squeeze, squeeze_sp_impl, H_keep, np_gt_s, np_where1. cbv zeta.
+  intros Hs Hin Hlen. unfold Hsq, squeeze_sp_impl_k, np_where1. cbv zeta.
   change (spt_shape (of_Sp S)) with (zs (sshape S)). change (spt_vals (of_Sp S)) with (svals S).
   change (spt_subs (of_Sp S)) with (zm (ssubs S)). set (s := sshape S) in *.
-  rewrite forallb_gt1_zs. pose proof (where_keep 0 s) as WK. cbn [Z.of_nat] in WK. rewrite WK. clear WK.
-  destruct (forallb (Nat.ltb 1) s) eqn:Hall.
+  rewrite forallb_k_zs. pose proof (where_keep 0 s) as WK. cbn [Z.of_nat] in WK. rewrite WK. clear WK.
+  destruct (forallb kn s) eqn:Hall.
   - replace (spt_make_ok _ _ _) with true; [reflexivity|]. symmetry.
     destruct (ssubs S) as [|j0 J] eqn:EJ.
     + destruct (svals S); [reflexivity|discriminate].
     + apply make_ok_zs; auto. discriminate.
-  - rewrite zlen_zs, keep_from_length, filter_gt1_zs.
-    destruct (sqz s s) as [|d r] eqn:Es.
+  - rewrite zlen_zs, keep_from_length, filter_k_zs.
+    destruct (sqk kn s s) as [|d r] eqn:Es.
     + cbn [length Z.eqb Z.of_nat]. destruct (svals S) as [|v [|v' vs]]; reflexivity.
     + replace (Z.of_nat (length (d :: r)) =? 0)%Z with false by (cbn [length]; symmetry; apply Z.eqb_neq; lia).
       unfold zlen at 1.
@@ -90,12 +117,136 @@ Proof.
         rewrite (cols_ok_zm (ssubs S) (keep_from 0 s) (length s) HL).
         2:{ apply Forall_forall. intros x Hx. apply keep_from_lt in Hx. lia. }
         rewrite cols_zm. cbn [andb].
-        assert (EM : map (pick 0 (keep_from 0 s)) (ssubs S) = map (sqz s) (ssubs S)).
+        assert (EM : map (pick 0 (keep_from 0 s)) (ssubs S) = map (sqk kn s) (ssubs S)).
         { apply map_ext_in. intros j Hj. rewrite Forall_forall in HL. apply (pick_keep_from [] j s). now apply HL. }
         rewrite EM. rewrite make_ok_zs; [reflexivity| | discriminate | | now rewrite map_length].
         -- destruct (ssubs S); [cbn in Hlen; lia|discriminate].
         -- apply Forall_forall. intros j Hj. apply in_map_iff in Hj as (j0 & <- & Hj0). rewrite Forall_forall in Hin.
-           rewrite <- Es. now destruct (sqz_index s j0 (Hin j0 Hj0)) as (_ & E & _).
+           rewrite <- Es. apply sqk_inb. now apply Hin.
+Qed.
+End Keep.
+
+(* the two instances: `> 1` (sqz, squeeze_sp_impl) and `!= 1` (sqn, squeeze_sp_impl_ne) *)
+Lemma sqk_gt1 {A} s (l : list A) : sqk (Nat.ltb 1) s l = sqz s l.
+Proof. revert l; induction s as [|d s IH]; intros [|x l]; cbn [sqk sqz]; try reflexivity. now rewrite IH. Qed.
+
+Lemma sqk_ne1 {A} s (l : list A) : sqk ne1 s l = sqn s l.
+Proof. revert l; induction s as [|d s IH]; intros [|x l]; cbn [sqk sqn]; try reflexivity. unfold ne1 at 1. rewrite IH. now destruct (Nat.eqb d 1). Qed.
+
+Lemma impl_k_gt1 {V} (v0 : V) S : squeeze_sp_impl_k (Nat.ltb 1) v0 S = squeeze_sp_impl v0 S.
+Proof.
+  unfold squeeze_sp_impl_k, squeeze_sp_impl. cbv zeta. rewrite sqk_gt1.
+  replace (map (sqk (Nat.ltb 1) (sshape S)) (ssubs S)) with (map (sqz (sshape S)) (ssubs S)); [reflexivity|].
+  apply map_ext. intros j. now rewrite sqk_gt1.
+Qed.
+
+Lemma kz_gt1 (d : nat) : (Z.of_nat d >? 1)%Z = (1 <? d).
+Proof. destruct (Nat.ltb_spec 1 d); [apply Z.gtb_lt; lia|]. destruct (Z.gtb_spec (Z.of_nat d) 1); [lia|reflexivity]. Qed.
+
+Lemma kz_ne1 (d : nat) : negb (Z.of_nat d =? 1)%Z = ne1 d.
+Proof. unfold ne1. f_equal. destruct (Nat.eqb_spec d 1) as [->|H]; [reflexivity|]. apply Z.eqb_neq. lia. Qed.
+
+(* on positive sizes the two tests agree *)
+Lemma impl_k_pos {V} (v0 : V) S : forallb (Nat.ltb 0) (sshape S) = true -> squeeze_sp_impl_k ne1 v0 S = squeeze_sp_impl_k (Nat.ltb 1) v0 S.
+Proof.
+  intros H. assert (E : forall A (l : list A), sqk ne1 (sshape S) l = sqk (Nat.ltb 1) (sshape S) l).
+  { intros A l. rewrite sqk_ne1, sqk_gt1. now apply sqn_sqz. }
+  unfold squeeze_sp_impl_k. cbv zeta. rewrite E.
+  replace (forallb ne1 (sshape S)) with (forallb (Nat.ltb 1) (sshape S)).
+  - replace (map (sqk ne1 (sshape S)) (ssubs S)) with (map (sqk (Nat.ltb 1) (sshape S)) (ssubs S)); [reflexivity|].
+    apply map_ext. intros j. now rewrite E.
+  - clear E. induction (sshape S) as [|d s IH]; [reflexivity|]. cbn [forallb] in *. apply andb_true_iff in H as [H1 H2].
+    rewrite (IH H2). f_equal. unfold ne1. apply Nat.ltb_lt in H1.
+    destruct (Nat.ltb_spec 1 d); destruct (Nat.eqb_spec d 1); try reflexivity; lia.
+Qed.
+
+Lemma impl_ne_pos {V} (v0 : V) S : forallb (Nat.ltb 0) (sshape S) = true -> squeeze_sp_impl_ne v0 S = squeeze_sp_impl v0 S.
+Proof. intros H. unfold squeeze_sp_impl_ne. now rewrite (impl_k_pos v0 S H), impl_k_gt1. Qed.
+
+(* ---------------- the text regenerated on THIS run (Gen/GenSptensor4b.v): it is the body Hsq with one of the two singleton tests —
+   `shapeArray > 1` (np_gt_s; /repo up to 6e4bb42, finding N-C07-7 open) or `shapeArray != 1` (np_ne_s of Np/NpZ4f.v; the repaired
+   text of fixes/C07-N-C07-7.diff).  The same script checks whichever text the translator produced. *)
+(* l[np.where(mask(l))] = the entries that pass, for a mask computed entry-wise (as in the translator builder's Proofs/W4Squeeze.v;
+   repeated here so that this file does not depend on which of the two texts that file is written for) *)
+Local Open Scope Z_scope.
+Lemma c07_take_where_from (P : Z -> bool) (pre l : vec) :
+  np_take 0 (pre ++ l) (where_from (zlen pre) (map P l)) = filter P l /\
+  np_take_ok (pre ++ l) (where_from (zlen pre) (map P l)) = true.
+Proof.
+  revert pre. induction l as [|x l IH]; intros pre; cbn [map where_from filter]; [split; reflexivity|].
+  destruct (IH (pre ++ [x])) as [I1 I2]. rewrite <- app_assoc in I1, I2. cbn [app] in I1, I2.
+  replace (zlen (pre ++ [x])) with (zlen pre + 1) in I1, I2 by (unfold zlen; rewrite app_length; cbn [length]; lia).
+  destruct (P x).
+  - unfold np_take, np_take_ok in *. cbn [map forallb]. split.
+    + f_equal; [|exact I1]. unfold zlen. rewrite znth_nat. apply nth_middle.
+    + rewrite I2. rewrite andb_true_r. apply w4_idx_ok_range. unfold zlen. rewrite app_length. cbn [length]. lia.
+  - split; assumption.
+Qed.
+
+Lemma c07_take_where (P : Z -> bool) (l : vec) :
+  np_take 0 l (np_where1 (map P l)) = filter P l /\ np_take_ok l (np_where1 (map P l)) = true.
+Proof. exact (c07_take_where_from P [] l). Qed.
+
+Lemma c07_np_all_map (P : Z -> bool) (l : vec) : np_all (map P l) = forallb P l.
+Proof. unfold np_all. induction l as [|x l IH]; cbn [map forallb]; [reflexivity|]. now rewrite IH. Qed.
+
+Local Close Scope Z_scope.
+
+Ltac sq_text_tac P self :=
+  cbv zeta; rewrite c07_np_all_map; destruct (forallb _ (spt_shape self)); [reflexivity|];
+  destruct (c07_take_where P (spt_shape self)) as [T1 T2]; rewrite T1, T2;
+  destruct (zlen (np_where1 _) =? 0)%Z;
+  [ destruct (spt_vals self) as [|v [|v' vs]]; [reflexivity|reflexivity|];
+    unfold zlen; cbn [length];
+    replace (Z.of_nat (S (S (length vs))) >? 0)%Z with true by (symmetry; apply Z.gtb_lt; lia);
+    replace (Z.of_nat (S (S (length vs))) =? 1)%Z with false by (symmetry; apply Z.eqb_neq; lia); reflexivity
+  | destruct (zlen (spt_vals self) =? 0)%Z; reflexivity ].
+
+Theorem sq_text :
+  (forall self, sptensor_squeeze self = Hsq (fun d => (d >? 1)%Z) self) \/
+  (forall self, sptensor_squeeze self = Hsq (fun d => negb (d =? 1)%Z) self).
+Proof.
+  first [ left; intros self; unfold sptensor_squeeze, Hsq, np_gt_s, spt_make; sq_text_tac (fun d => (d >? 1)%Z) self
+        | right; intros self; unfold sptensor_squeeze, Hsq, np_ne_s, spt_make; sq_text_tac (fun d => negb (d =? 1)%Z) self ].
+Qed.
+
+(* the probe of Model/C07Gen4.v tells which *)
+Lemma sq_text_probe :
+  (sq_text_keeps_zero = false /\ forall self, sptensor_squeeze self = Hsq (fun d => (d >? 1)%Z) self) \/
+  (sq_text_keeps_zero = true /\ forall self, sptensor_squeeze self = Hsq (fun d => negb (d =? 1)%Z) self).
+Proof.
+  destruct sq_text as [H|H]; [left|right]; (split; [|exact H]); unfold sq_text_keeps_zero; rewrite H; reflexivity.
+Qed.
+
+Definition sq_out (r : option (C07Ops.sq_res (V:=Z) (sparse Z))) : res sq_result :=
+  match r with
+  | Some (C07Ops.SqT R) => Ok (NpZ4d.SqTensor (of_Sp R))
+  | Some (C07Ops.SqScalar v) => Ok (NpZ4d.SqScalar v)
+  | None => Err
+  end.
+
+(* every shape, whichever text: the generated method = the return statements with the test the text contains *)
+Theorem gen_sp_squeeze_text (S : sparse Z) : sshape S <> [] ->
+  Forall (fun j => inb (sshape S) j = true) (ssubs S) -> length (svals S) = length (ssubs S) ->
+  sptensor_squeeze (of_Sp S) = sq_out (if sq_text_keeps_zero then squeeze_sp_impl_ne 0%Z S else squeeze_sp_impl 0%Z S).
+Proof.
+  intros Hs Hin Hlen. destruct sq_text_probe as [[E H]|[E H]]; rewrite E, H.
+  - rewrite (gen_sp_squeeze_k (Nat.ltb 1) _ kz_gt1 S Hs Hin Hlen). now rewrite impl_k_gt1.
+  - exact (gen_sp_squeeze_k ne1 _ kz_ne1 S Hs Hin Hlen).
+Qed.
+
+(* positive sizes: the two tests agree, so both texts return what squeeze_sp_impl returns *)
+Theorem gen_sp_squeeze_model (S : sparse Z) : sshape S <> [] -> forallb (Nat.ltb 0) (sshape S) = true ->
+  Forall (fun j => inb (sshape S) j = true) (ssubs S) -> length (svals S) = length (ssubs S) ->
+  sptensor_squeeze (of_Sp S) =
+    match squeeze_sp_impl 0%Z S with
+    | Some (C07Ops.SqT R) => Ok (NpZ4d.SqTensor (of_Sp R))
+    | Some (C07Ops.SqScalar v) => Ok (NpZ4d.SqScalar v)
+    | None => Err
+    end.
+Proof.
+  intros Hs Hp Hin Hlen. rewrite (gen_sp_squeeze_text S Hs Hin Hlen). destruct sq_text_keeps_zero; [|reflexivity].
+  unfold squeeze_sp_impl_ne. now rewrite (impl_k_pos 0%Z S Hp), impl_k_gt1.
 Qed.
 
 (* through the adapter of Model/C07Gen4.v: generated sptensor.squeeze = the code-path model, hence (C07_squeeze_sparse_code) the
@@ -110,10 +261,45 @@ Proof.
   - induction J as [|j J IH]; [reflexivity|]. cbn [map]. now rewrite to_nat_of_nat, IH.
 Qed.
 
-Theorem gen_sp_squeeze_res (S : sparse Z) : sshape S <> [] ->
+Lemma sq_out_res r : match sq_out r with
+                      | Ok (NpZ4d.SqTensor t) => Some (C07Ops.SqT (to_Sp t))
+                      | Ok (NpZ4d.SqScalar v) => Some (C07Ops.SqScalar v)
+                      | Err => None
+                      end = r.
+Proof. destruct r as [[R|v]|]; cbn [sq_out]; [|reflexivity|reflexivity]. now rewrite to_of_Sp. Qed.
+
+Theorem gen_sp_squeeze_res (S : sparse Z) : sshape S <> [] -> forallb (Nat.ltb 0) (sshape S) = true ->
   Forall (fun j => inb (sshape S) j = true) (ssubs S) -> length (svals S) = length (ssubs S) ->
   sptensor_squeeze_res (of_Sp S) = squeeze_sp_impl 0%Z S.
 Proof.
-  intros Hs Hin Hlen. unfold sptensor_squeeze_res. rewrite (gen_sp_squeeze_model S Hs Hin Hlen).
-  destruct (squeeze_sp_impl 0%Z S) as [[R|v]|]; [|reflexivity|reflexivity]. now rewrite to_of_Sp.
+  intros Hs Hp Hin Hlen. unfold sptensor_squeeze_res. rewrite (gen_sp_squeeze_model S Hs Hp Hin Hlen).
+  exact (sq_out_res (squeeze_sp_impl 0%Z S)).
+Qed.
+
+Theorem gen_sp_squeeze_text_res (S : sparse Z) : sshape S <> [] ->
+  Forall (fun j => inb (sshape S) j = true) (ssubs S) -> length (svals S) = length (ssubs S) ->
+  sptensor_squeeze_res (of_Sp S) = if sq_text_keeps_zero then squeeze_sp_impl_ne 0%Z S else squeeze_sp_impl 0%Z S.
+Proof. intros Hs Hin Hlen. unfold sptensor_squeeze_res. rewrite (gen_sp_squeeze_text S Hs Hin Hlen). apply sq_out_res. Qed.
+
+(* a holder with a size-0 mode (nothing can be stored): the return statements of the repaired text give what the property demands
+   (squeeze_sp_any of Model/C07W5.v: the size-0 modes are kept, the answer is a tensor) ... *)
+Lemma impl_ne_zero_mode (S : sparse Z) : Forall (fun j => inb (sshape S) j = true) (ssubs S) -> length (svals S) = length (ssubs S) ->
+  In 0 (sshape S) -> squeeze_sp_impl_ne 0%Z S = Some (squeeze_sp_any 0%Z S).
+Proof.
+  intros Hin Hlen H0. destruct (squeeze_sparse_zero_mode 0%Z S Hin H0) as [Hs _].
+  rewrite Hs in Hlen. destruct S as [s J v]. cbn [sshape ssubs svals] in *. subst J. destruct v; [|discriminate].
+  unfold squeeze_sp_impl_ne, squeeze_sp_impl_k, squeeze_sp_any. cbn [sshape ssubs svals]. rewrite sqk_ne1.
+  change (forallb ne1 s) with (forallb (fun d => negb (Nat.eqb d 1)) s).
+  destruct (forallb _ s); [reflexivity|]. pose proof (sqn_has_zero _ H0) as Hz.
+  destruct (sqn s s) as [|d r]; [destruct Hz|]. reflexivity.
+Qed.
+
+(* ... so a text that passes the probe (the repaired one) answers every such holder as the property demands; the text of /repo up
+   to 6e4bb42 (probe false) answers with squeeze_sp_impl: the size-0 modes are dropped like singletons (finding N-C07-7) *)
+Theorem gen_sp_squeeze_zero_mode (S : sparse Z) :
+  Forall (fun j => inb (sshape S) j = true) (ssubs S) -> length (svals S) = length (ssubs S) -> In 0 (sshape S) ->
+  sptensor_squeeze_res (of_Sp S) = if sq_text_keeps_zero then Some (squeeze_sp_any 0%Z S) else squeeze_sp_impl 0%Z S.
+Proof.
+  intros Hin Hlen H0. assert (Hs : sshape S <> []) by (intros E; rewrite E in H0; exact H0).
+  rewrite (gen_sp_squeeze_text_res S Hs Hin Hlen). destruct sq_text_keeps_zero; [|reflexivity]. now apply impl_ne_zero_mode.
 Qed.
